@@ -290,6 +290,7 @@ def check(prop, tier):
             runs = [(sd, nn, tag, False) for (sd, nn, tag) in runs] + [(sd, nn, tag + "_erased", True) for (sd, nn, tag) in runs]
         else:
             runs = [(sd, nn, tag, bool(er)) for (sd, nn, tag) in runs]
+        div_by_run = {}
         for (sd, nn, tag, erased) in runs:
             rep, tr = run_corr(prop, sd, nn, cfg["corr"]["families"], erase=erased, tag=tag)
             corr_total.setdefault("erased_scripts", 0)
@@ -301,6 +302,7 @@ def check(prop, tier):
                 for kk, vv in rep[k].items():
                     corr_total[k][kk] = corr_total[k].get(kk, 0) + vv
             corr_total["divergences"] += rep["divergences"]
+            div_by_run.setdefault(tag.replace("_erased", ""), {})[erased] = {d["script"]: d for d in rep["divergences"]}
             if not corr_total["samples"]:
                 corr_total["samples"] = rep["samples"][:1]
             fails, perr, summ = run_monitors(prop, tr, cfg["monitors"])
@@ -311,6 +313,14 @@ def check(prop, tier):
                 mon, name = f[0], f[1]
                 violations.append(("monitor-failure", f"monitor {mon} is false on the real trace {name}",
                                    {"monitor": mon, "trace": trace_of(tr, name), "seed": sd}))
+        if prop == "C16":
+            # transparency itself: the same script, run directly, follows the model; run through the type-erased
+            # wrappers it does not - the operation has a different observable effect through the trait object
+            for base, both in div_by_run.items():
+                only_erased = [d for name, d in both.get(True, {}).items() if name not in both.get(False, {})]
+                for d in only_erased[:1]:
+                    violations.append(("erased-run-differs", f"script {d['script']}: run directly on the ActorRef / ActorWeak it behaves as the model says; with the same operations issued through type-erased handles it differs at step {d['step']} ({d['op']})",
+                                       {"failing_input": d, "scripts_differing_only_when_erased": len(only_erased), "seed": seed}))
         if corr_total["divergences"]:
             d = corr_total["divergences"][0]
             broken.append(f"correspondence: model and implementation diverge on {len(corr_total['divergences'])} script(s); first: {d['script']} at step {d['step']} ({d['op']})")
